@@ -171,6 +171,8 @@ def run_tlc(module, tier, out_path, workers=8, timeout=3600, extra_constants=Non
                 st["initial"] = int(m.group(1))
             if line.startswith("Error:"):
                 st["errors"].append(line.strip())
+            if "Postcondition" in line and "is false" in line:
+                st["errors"].append("postcondition false")
             m = re.match(r"Error: Invariant (\S+) is violated", line)
             if m:
                 st["violated"] = m.group(1)
@@ -406,3 +408,29 @@ def generic_replay(res, path, binname, only=None, env_keys=("ty",)):
         return EXIT_VIOLATION
     print("replay: no mismatch on the current tree")
     return EXIT_OK
+
+
+# ---------------------------------------------------------------------------------------------
+# two-trace validation: TLC consumes two recorded traces in lock step (spec/Trace_SameBits.tla)
+# ---------------------------------------------------------------------------------------------
+def same_bits(res, trace_a, trace_b, cfg_a, cfg_b, prop=None):
+    """Both builds executed the same behaviours; TLC accepts iff every event (bit digest) is equal."""
+    out = os.path.join(WORK, res.prop, f"samebits.{cfg_a}.{cfg_b}.out")
+    n_a = sum(1 for _ in open(trace_a))
+    if n_a == 0:
+        raise ToolError(f"vacuity guard: empty trace {trace_a}")
+    try:
+        st = run_tlc("Trace_SameBits", res.tier, out, workers=1, env_extra={"TRACE_A": trace_a, "TRACE_B": trace_b},
+                     java_opts="-Xss1g -Xmx6g", timeout=1800)
+        res.add_tlc(st)
+        res.behaviours += 1
+        res.extra.setdefault("traces_compared_by_tlc", []).append({"a": cfg_a, "b": cfg_b, "events": n_a})
+    except ToolError as e:
+        txt = open(out, errors="replace").read()
+        if "SAMEBITS-REJECTED" in txt:
+            first = [l for l in txt.splitlines() if "FIRST-DIFFERENCE" in l or "SAMEBITS-REJECTED" in l]
+            res.mismatches.append({"prop": prop or res.prop, "cfg": f"{cfg_a} vs {cfg_b}", "ty": "trace", "op": "values differ between build configurations",
+                                   "what": " ".join(first)[:600] + " " + txt[txt.find("FIRST-DIFFERENCE"):][:400],
+                                   "case": {"fam": "samebits", "trace_a": trace_a, "trace_b": trace_b}})
+        else:
+            raise
